@@ -64,7 +64,6 @@ def _call_text(ctx, name, *args):
 
 
 def _table(ctx, name, construct, cases, why):
-    wrong = []
     f = _reg(ctx, name)
     for args, want in cases:
         try:
@@ -72,10 +71,9 @@ def _table(ctx, name, construct, cases, why):
         except Unmodelled as exc:
             raise Unmodelled(f'{name}{args!r}: {exc}')
         got = out.value if out.end == 'return' else f'<{out.end} {out.value!r}>'
-        if got != want:
-            wrong.append((args, got, want))
-    ctx.expect(not wrong, f.node, construct,
-               (f'{name}{wrong[0][0]!r} gives {wrong[0][1]!r}, expected {wrong[0][2]!r}: ' + why) if wrong else '')
+        # one obligation per row: a known wrong row must not hide another one
+        ctx.expect(got == want, f.node, f'{construct}: {name}{args!r}',
+                   f'{name}{args!r} gives {got!r}, expected {want!r}: ' + why)
 
 
 def rule_1(ctx):
@@ -251,9 +249,16 @@ def rule_4(ctx):
     ctx.floor(7, 'simple maps')
 
 
+def rule_5(ctx):
+    """Text constants reach the text functions with exactly their characters (shared with C02.10)."""
+    from . import c02
+    c02.rule_10(ctx)
+
+
 RULES = [
     ('C17.1', 'index forms of the slices (affine)', rule_1),
     ('C17.2', 'bounds decisions over the (length, position, count) grid', rule_2),
     ('C17.3', 'coercion of parameters; text form of numbers', rule_3),
     ('C17.4', 'simple maps', rule_4),
+    ('C17.5', 'text constants keep their characters up to the function call (shared with C02.10)', rule_5),
 ]
